@@ -10,6 +10,7 @@ import TracingModel.Spec.CivilJudge
 import TracingModel.Core.LevelsDriver
 import TracingModel.Core.CoreDriver
 import TracingModel.Core.ScopeRaceDriver
+import TracingModel.Core.HandleRaceDriver
 import TracingModel.Core.RegistryDriver
 import TracingModel.Core.SpanDriver
 import TracingModel.Core.DirectiveDriver
@@ -67,6 +68,7 @@ def dispatch (prop mode : String) : Option (List String → String) :=
   | "C04", "spec" => some CoreDriver.spec
   | "C05", "model" => some RegistryDriver.model
   | "C05", "spec" => some RegistryDriver.spec
+  | "C05", "modelhandle" => some HandleRaceDriver.model
   | "C06", "model" => some RegistryDriver.model
   | "C06", "spec" => some RegistryDriver.spec
   | "C07", "model" => some FilteringDriver.model
